@@ -46,6 +46,7 @@ OwnMinV(node) ==
   LET k == node.k IN
   CASE k \in {"Int", "Bytes", "Nop", "Seq", "If", "Cond", "Assert", "Return", "Approve", "Reject", "Err", "Pop",
               "Load", "Store", "PVal", "Comment", "Idx"} -> 2
+    [] k \in {"DynSet", "DynLoad", "DynStore"} -> 5        \* loads / stores
     [] k \in {"Op", "Nary"} -> OpMinV(node.s)
     [] k \in {"Txn", "TxnA"} -> TxnFieldMinV(node.s)
     [] k = "Global" -> GlobalFieldMinV(node.s)
@@ -85,6 +86,21 @@ NoRefRecursion(prog) ==
   \A r \in Routines(prog) \ {0} :
      (\E j \in 1..Len(prog.rt[r].pk) : prog.rt[r].pk[j] = "r") => ~InCycle(prog, r)
 
+\* ---- slot limits (C10): at most 256 distinct storage cells, no two variables requesting the same slot id ----
+AllUsedVars(prog) == UNION {UsedVars(BodyOf(prog, r)) : r \in Routines(prog)}
+AllUsedDyns(prog) == UNION {UsedDyns(BodyOf(prog, r)) : r \in Routines(prog)}
+\* by-value parameters of the scratch calling convention are cells too (one per parameter)
+ParamCells(prog) == LET RECURSIVE S(_) S(R) == IF R = {} THEN 0 ELSE LET r == CHOOSE x \in R : TRUE IN Len(prog.rt[r].pk) + S(R \ {r})
+                    IN S(Routines(prog) \ {0})
+ReqSlot(prog, v) == IF "vars" \in DOMAIN prog /\ v <= Len(prog.vars) THEN prog.vars[v].slot ELSE 0 - 1
+DuplicateRequest(prog) ==
+  \E v, w \in AllUsedVars(prog) : v # w /\ ReqSlot(prog, v) >= 0 /\ ReqSlot(prog, v) = ReqSlot(prog, w)
+CellsLowerBound(prog) == Cardinality(AllUsedVars(prog)) + Cardinality(AllUsedDyns(prog))
+CellsUpperBound(prog) == CellsLowerBound(prog) + ParamCells(prog)
+MustRejectSlots(prog) == DuplicateRequest(prog) \/ CellsLowerBound(prog) > 256
+SlotsOK(prog) == ~DuplicateRequest(prog) /\ CellsUpperBound(prog) <= 256
+
 Accepts(prog, version, mode) ==
   version >= ProgMinV(prog) /\ version <= 10 /\ ModeOK(prog, mode) /\ ~MustReject(prog) /\ NoRefRecursion(prog)
+  /\ SlotsOK(prog)
 =============================================================================
